@@ -37,7 +37,12 @@ def compile_script(script_path: str) -> CompilerOutput:
     if script_name.endswith(".py"):
         script_name = script_name[:-3]
     timer.start("nada_dsl.compile.compile.__import__")
-    script = __import__(script_name)
+    # Load the program from its path: importing it by name would return an already
+    # imported or standard-library module of the same name (json.py, os.py, ...) and
+    # cannot import file names that contain dots.
+    spec = importlib.util.spec_from_file_location(script_name, script_path)
+    script = importlib.util.module_from_spec(spec)
+    spec.loader.exec_module(script)
     timer.stop("nada_dsl.compile.compile.__import__")
 
     try:
